@@ -454,6 +454,8 @@ def run(tier, seed):
         text += f"\nall failing values of this run ({len(fails)}):\n" + "\n".join(
             f"  seed {fq.seed} #{fi} {fq.entries[fi]['spec']['type']} ({fq.entries[fi]['spec'].get('origin')}): {fw[:300]}" for fq, fi, fw in fails[:40])
         run.violation("failing_input.txt", text)
+        for fq, fi, fw in fails[:5]:
+            print(f"[C19] failing value: seed {fq.seed} #{fi} {fq.entries[fi]['spec']['type']} ({fq.entries[fi]['spec'].get('origin')}): {fw[:400]}")
     elif broken:
         run.violation("unchecked.txt", "property: C19\nno concrete failing value found in " + str(values) + " values ("
                       + ", ".join(f"seed {q.seed}" for q in passes) + "); what no longer checks:\n" + "\n".join(broken), no_input=True)
